@@ -435,6 +435,10 @@ func (n *Node) Open() {
 	for k, v := range n.AppOpts {
 		opts[k] = v
 	}
+	if n.Cfg.MinGasPrices != "" {
+		// what the operator writes into app.toml reaches the application both ways
+		opts[server.FlagMinGasPrices] = n.Cfg.MinGasPrices
+	}
 	n.App = app.NewApp(log.NewNopLogger(), n.DB, nil, true, opts, n.baseOpts()...)
 	n.Down = false
 }
